@@ -71,3 +71,14 @@ Example C09_nonvacuous :
                    Chunk [27; 91; 50; 48; 48; 126; 104]; ReadErr] None in
   rd_why r = StopErr /\ length (rd_out r) = 6%nat /\ rd_left r = [27; 91; 50; 48; 48; 126; 104].
 Proof. vm_compute. repeat split. Qed.
+
+(* bytes that a Read returns TOGETHER with its error (io.Reader allows n > 0 with err != nil) are decoded like any other
+   read's before the reader stops with the error; C09_account covers them (script_bytes counts them) *)
+Theorem C09_data_with_error : forall bs rest left sent cancel,
+  reader_from (ChunkErr bs :: rest) left sent cancel = reader_from [Chunk bs; ReadErr] left sent cancel.
+Proof. exact reader_data_with_error. Qed.
+Print Assumptions C09_data_with_error.
+Example C09_data_with_error_nonvacuous :
+  let r := reader [Chunk [97]; ChunkErr [98; 27; 91; 65]] None in
+  rd_why r = StopErr /\ length (rd_out r) = 3%nat /\ rd_left r = [] /\ runs (rd_out r) = [97; 98; 27; 91; 65].
+Proof. vm_compute. repeat split. Qed.
